@@ -97,7 +97,7 @@ theorem Consumes.trans {a b c : List Tok} (h1 : Consumes a b) (h2 : Consumes b c
 theorem Consumes.step {t : Tok} {r : List Tok} (he : t.isErr = false) (hk : isBracket t.kind = false) : Consumes (t :: r) r :=
   ⟨[t], rfl, Neutral.single he hk⟩
 
-theorem Consumes.step' {t : Tok} {r rest : List Tok} (he : t.isErr = false) (hk : isBracket t.kind = false) (h : Consumes r rest) :
+theorem Consumes.stepThen {t : Tok} {r rest : List Tok} (he : t.isErr = false) (hk : isBracket t.kind = false) (h : Consumes r rest) :
     Consumes (t :: r) rest := (Consumes.step he hk).trans h
 
 /-! ### the token-level helpers -/
@@ -148,7 +148,7 @@ theorem plain_go : ∀ (ts : List Tok) (acc : String) (last : Option TokKind) (s
       · simp only [hp, if_true] at h
         split at h
         · cases h
-        · exact Consumes.step' (by simpa using he) (psStart_not_bracket hp) (plain_go r _ _ _ _ _ h)
+        · exact Consumes.stepThen (by simpa using he) (psStart_not_bracket hp) (plain_go r _ _ _ _ _ h)
       · simp only [hp, Bool.false_eq_true, if_false] at h
         injection h with h; injection h with _ h; injection h with _ h
         subst h; exact Consumes.refl _
@@ -185,7 +185,7 @@ theorem more_consumes : ∀ (fuel : Nat) (acc : String) (ts : List Tok) (v : Str
       split at h
       · cases h
       · rename_i w l rest' hps
-        exact Consumes.step' he (by rw [hk]; rfl) ((plainString_consumes hps).trans (more_consumes fuel _ _ _ _ h))
+        exact Consumes.stepThen he (by rw [hk]; rfl) ((plainString_consumes hps).trans (more_consumes fuel _ _ _ _ h))
     · injection h with h; injection h with _ h
       subst h; exact Consumes.refl _
 
@@ -408,7 +408,7 @@ theorem argument_consumes {ts : List Tok} {a : ANode} {rest : List Tok} (h : arg
       · rename_i v rest' hex
         split at h
         · injection h with h; injection h with _ h; subst h
-          exact Consumes.step' he (by rw [hk]; rfl) (Consumes.step' he2 (by rw [hk2]; rfl) ((mutual_consumes _).1 _ _ _ hex))
+          exact Consumes.stepThen he (by rw [hk]; rfl) (Consumes.stepThen he2 (by rw [hk2]; rfl) ((mutual_consumes _).1 _ _ _ hex))
         · cases h
 
 /-- what the argument loop consumes: a neutral stretch and the closing `)` -/
@@ -486,15 +486,15 @@ theorem command_consumes {ts : List Tok} {c : CNode × Bool} {rest : List Tok} (
         · rename_i args rest' hargs
           split at h
           · injection h with h; injection h with _ h; subst h
-            exact Consumes.step' he (by rw [hk]; rfl) (Consumes.step' he2 (by rw [hk2]; rfl)
-              (Consumes.step' he3 (by rw [hk3]; rfl) (arguments_consumes hargs)))
+            exact Consumes.stepThen he (by rw [hk]; rfl) (Consumes.stepThen he2 (by rw [hk2]; rfl)
+              (Consumes.stepThen he3 (by rw [hk3]; rfl) (arguments_consumes hargs)))
           · cases h
     · split at h
       · cases h
       · rename_i args rest' hargs
         split at h
         · injection h with h; injection h with _ h; subst h
-          exact Consumes.step' he (by rw [hk]; rfl) (arguments_consumes hargs)
+          exact Consumes.stepThen he (by rw [hk]; rfl) (arguments_consumes hargs)
         · cases h
 
 theorem parse_go_consumes : ∀ (fuel : Nat) (ts : List Tok) (acc : List CNode) (v2 : Bool) (p : PNode),
